@@ -1,9 +1,116 @@
-(* C08/Props.v -- the property theorems, and nothing else. *)
+(* C08/Props.v -- the property theorems, and nothing else.  Each is closed by [exact] of a lemma of
+   Proofs*.v and followed by Print Assumptions.
+
+   Reading.  st = spike_templates, sc = spike_clusters (same length, at least one spike, cluster ids >= 0).
+   The merge map is kept as the list of its values for the keys 0, 1, ..., max(sc).  A cluster waveform
+   cell is the pair (numerator, denominator) of exact integers whose quotient np.average computes with one
+   binary64 division (reproduced only in Corr.v); rat_of v = (v, 1).  "The channels of template t" are
+   those of get_template (C05's subject) and enter the statements only through chans_of.  WF d = the
+   arrays of d have consistent shapes and every template id is below n_templates. *)
 From Coq Require Import ZArith List Lia Bool Arith Sorted.
-From PV Require Import Base.NpSearch C08.Model C08.Spec C08.Proofs.
+From PV Require Import Base.NpSearch C08.Model C08.Spec C08.Proofs C08.Proofs2 C08.Proofs3.
 Import ListNotations.
 Open Scope Z_scope.
 
-Theorem C08_unique_members : forall l z, In z (np_unique l) <-> In z l.
-Proof. exact np_unique_in. Qed.
-Print Assumptions C08_unique_members.
+(* Provenance.  For EVERY id c in [0, max]: the merge map has an entry for c, it is strictly increasing
+   (hence duplicate-free) and holds exactly the templates t such that some spike has cluster c and template
+   t; nan_idx is strictly increasing and holds exactly the ids of [0, max] without a spike; the map has
+   max + 1 entries (no other key). *)
+Theorem C08_merge_map : forall (st sc : list Z),
+  length st = length sc -> sc <> [] -> (forall c, In c sc -> 0 <= c) ->
+  exists mm, merge_map st sc = Some mm /\ MergeMap_Spec st sc mm (nan_from 0 mm).
+Proof. exact merge_map_spec. Qed.
+Print Assumptions C08_merge_map.
+
+(* the guards are exact: no spike -> np.max raises; a negative cluster id -> KeyError *)
+Theorem C08_merge_map_guards : forall (st sc : list Z),
+  (sc = [] -> merge_map st sc = None) /\ (forall c, In c sc -> c < 0 -> merge_map st sc = None).
+Proof. intros st sc. split; [intros ->; apply merge_map_empty|apply merge_map_negative]. Qed.
+Print Assumptions C08_merge_map_guards.
+
+(* what _load_data stores when clusters differ from templates meets the same specification, with one
+   waveform and one entry per id and n_clusters = max + 1 *)
+Theorem C08_merge_map_loaded : forall (d : dset) (m : loaded),
+  d_sc d <> d_st d -> load d = Some m ->
+  l_curated m = true /\ MergeMap_Spec (d_st d) (d_sc d) (l_mm m) (l_nan m) /\
+  length (l_data m) = length (l_mm m) /\ l_ncl m = zlen (l_mm m).
+Proof.
+  intros d m Hne H. split; [exact (proj1 (load_curated d m Hne H))|].
+  split; [exact (load_merge_map d m Hne H)|exact (load_shape d m Hne H)].
+Qed.
+Print Assumptions C08_merge_map_loaded.
+
+(* A cluster stemming from a single template t (it has a spike, and every spike of it has template t)
+   carries that template's waveform unchanged, on all channels. *)
+Theorem C08_single : forall (d : dset) (m : loaded) (c t : Z),
+  d_sc d <> d_st d -> load d = Some m ->
+  In c (d_sc d) -> (forall t', PairIn (d_st d) (d_sc d) c t' -> t' = t) ->
+  nth_error (l_data m) (Z.to_nat c) = Some (single_rows d (Z.to_nat t)).
+Proof. exact cluster_single. Qed.
+Print Assumptions C08_single.
+
+(* get_cluster_mean_waveforms(c, unwhiten) (both routes): there is a dominant template tb (positive and
+   maximal number of the cluster's spikes) such that the returned channels are tb's, the denominator is the
+   number of spikes of c and, for every sample s and every returned channel k, the numerator is
+   sum_t count(c, t) * (template t at (s, k) if k is one of t's own channels, else 0). *)
+Theorem C08_mean_fn : forall (d : dset) (c : Z) (unw : bool) (m : mw),
+  WF d -> mean_waveforms d c unw = Some m ->
+  exists tb, Dominant d c tb /\ mw_chans m = chans_of d unw tb /\ mw_den m = wden d c /\
+             mw_num m = mean_num d unw c tb.
+Proof. exact mean_waveforms_spec. Qed.
+Print Assumptions C08_mean_fn.
+
+(* A cluster stemming from several templates carries, on the channels of a dominant template, the
+   spike-count weighted mean of its templates' channel-restricted waveforms, and zero on every other channel
+   (mean_rows, Spec.v). *)
+Theorem C08_mean : forall (d : dset) (m : loaded) (c t1 t2 : Z),
+  WF d -> d_sc d <> d_st d -> load d = Some m ->
+  PairIn (d_st d) (d_sc d) c t1 -> PairIn (d_st d) (d_sc d) c t2 -> t1 <> t2 ->
+  exists tb, Dominant d c tb /\ nth_error (l_data m) (Z.to_nat c) = Some (mean_rows d c tb).
+Proof. exact cluster_mean. Qed.
+Print Assumptions C08_mean.
+
+(* When cluster and template assignments coincide: no merge map, the cluster waveforms are the template
+   waveforms (one per template, used or not) and there are as many clusters as templates. *)
+Theorem C08_identity : forall (d : dset),
+  d_sc d = d_st d -> d_sc d <> [] ->
+  load d = Some (mkld false [] [] (map (single_rows d) (seq 0 (length (d_tmpl d)))) (n_templates d)).
+Proof. exact load_identity. Qed.
+Print Assumptions C08_identity.
+
+(* the boolean checkers used by the correspondence decide the declarative notions *)
+Theorem C08_checkers : forall (d : dset) (c : Z) (tb : nat),
+  (wf_b d = true -> WF d) /\ (dominant_b d c tb = true <-> Dominant d c tb).
+Proof. intros d c tb. split; [apply wf_b_sound|apply dominant_b_spec]. Qed.
+Print Assumptions C08_checkers.
+
+(* ---- non-vacuity: a curated data set with a two-template cluster (count tie), a single-template
+   cluster, empty ids in the middle and a template whose channels are restricted by its shank ---- *)
+Definition ex_d : dset :=
+  mkds [0; 0; 1; 1; 2; 2; 2] [0; 3; 3; 1; 1; 5; 5]
+       [ [[1; 2; 3]; [4; 5; 6]]; [[7; 8; 9]; [1; 1; 1]]; [[0; 5; 0]; [0; -5; 0]] ]
+       [0; 0; 0] [0; 20; 40] [0; 0; 1] [[1; 0; 0]; [0; 1; 0]; [0; 0; 1]].
+
+Example C08_ex_merge_map :
+  merge_map (d_st ex_d) (d_sc ex_d) = Some [[0]; [1; 2]; []; [0; 1]; []; [2]] /\
+  nan_from 0 [[0]; [1; 2]; []; [0; 1]; []; [2]] = [2; 4].
+Proof. vm_compute. split; reflexivity. Qed.
+Example C08_ex_wf : wf_b ex_d = true.
+Proof. vm_compute. reflexivity. Qed.
+Example C08_ex_loads : exists m, load ex_d = Some m /\ l_ncl m = 6 /\
+  nth_error (l_data m) 5 = Some (single_rows ex_d 2) /\          (* cluster 5 <- template 2 only *)
+  nth_error (l_data m) 3 = Some (mean_rows ex_d 3 0) /\          (* cluster 3 <- templates 0 and 1, one spike each *)
+  mean_rows ex_d 3 0 = [[mkrat 1 2; mkrat 2 2; rat_of 0]; [mkrat 4 2; mkrat 5 2; rat_of 0]].
+Proof. eexists. split; [vm_compute; reflexivity|]. vm_compute. repeat split; reflexivity. Qed.
+Example C08_ex_pairs : PairIn (d_st ex_d) (d_sc ex_d) 3 0 /\ PairIn (d_st ex_d) (d_sc ex_d) 3 1 /\
+  Dominant ex_d 3 0 /\ Dominant ex_d 3 1 /\ d_sc ex_d <> d_st ex_d.
+Proof.
+  split; [exists 1%nat; split; reflexivity|]. split; [exists 2%nat; split; reflexivity|].
+  split; [apply dominant_b_spec; reflexivity|]. split; [apply dominant_b_spec; reflexivity|]. discriminate.
+Qed.
+Example C08_ex_mean_fn : exists m, mean_waveforms ex_d 1 true = Some m /\ mw_den m = 2 /\ mw_chans m = [2].
+Proof. eexists. split; [vm_compute; reflexivity|]. split; reflexivity. Qed.
+Example C08_ex_identity :
+  let d := mkds [0; 1; 1] [0; 1; 1] (d_tmpl ex_d) (d_px ex_d) (d_py ex_d) (d_shanks ex_d) (d_wmi ex_d) in
+  exists m, load d = Some m /\ l_ncl m = 3 /\ length (l_data m) = 3%nat.   (* template 2 has no spike *)
+Proof. eexists. split; [vm_compute; reflexivity|]. split; reflexivity. Qed.
